@@ -15,6 +15,7 @@ type Node struct {
 	Bracket bool
 	Target  bool
 	IsList  bool
+	Prefix  string // text written directly before the opening bracket ("'" makes the list a quoted datum)
 }
 
 func A(s string) *Node { return &Node{Atom: s} }
@@ -149,8 +150,9 @@ func renderNode(n *Node, paren bool, b *strings.Builder, onTarget func(off int))
 		return
 	}
 	if n.Target {
-		onTarget(b.Len())
+		onTarget(b.Len() + len(n.Prefix))
 	}
+	b.WriteString(n.Prefix)
 	if n.Bracket && !paren {
 		b.WriteByte('[')
 	} else {
